@@ -371,7 +371,7 @@ pub fn main_c10(env: &Env, tier: &str, seed: u64, replay: Option<&str>) -> i32 {
                 continue;
             }
             if check_case(env, &ctx0, &cases[i], hs).0.is_none() {
-                eprintln!("NOTE: violation did not reproduce, not reported: {}", x.message);
+                eprintln!("NOTE: violation did not reproduce, not reported: [{} {:?}] {}", cases[i].kind, cases[i].args, x.message);
                 continue;
             }
             reported.insert(x.signature.clone());
